@@ -46,6 +46,9 @@ type natsMsg struct {
 	Payload   string
 	Handled   bool
 	HandledAt time.Duration
+	// the request had not been completed when the listener took this message
+	// (after the deadline that means: it raced the timeout)
+	BeforeDone bool
 }
 
 type natsDone struct {
@@ -80,6 +83,7 @@ type natsWorld struct {
 	closedCB int
 	closedEr string
 	dead     bool
+	cur      *natsQueued // the message the listener is about to look up (lock yields)
 }
 
 type natsPub struct{ subj, reply, payload string }
@@ -100,6 +104,13 @@ func (s *Sim) runNATS() {
 	s.keepLines = cfg.KeepLines
 	s.installHooks()
 	cfg.P = &ProfileParams{W: map[string]float64{}, Faults: map[string]bool{}, MaxSteps: 120 + s.pick(200)}
+	if s.pick(3) == 0 {
+		// R8: the adapter's goroutines (listener, timer queue, timers of
+		// extended deadlines, completion callbacks) may be pre-empted before
+		// any lock they take
+		cfg.P.Faults["lockyield"] = true
+		cfg.P.MaxSteps += 150
+	}
 	w := &natsWorld{s: s, subsBySI: map[string]string{}}
 	s.nats = w
 	cliEnd, srvEnd := net.Pipe()
@@ -297,8 +308,12 @@ func (s *Sim) natsNext() (Decision, bool) {
 			add(0.25, "unsub", fmt.Sprintf("%d", u.N))
 		}
 	}
-	if s.numParked() > 0 {
-		add(6, "run", "")
+	if n := s.numParked(); n > 0 {
+		if s.Cfg.P.Faults["lockyield"] {
+			add(8, "run", fmt.Sprint(s.pick(n)))
+		} else {
+			add(6, "run", "")
+		}
 	}
 	add(0.8, "time", pickOne(s, []string{"1ms", "500ms", "1s", "2999ms", "3s", "3001ms", "5s", "2m"}))
 	if !w.dead && s.Step > 20 {
@@ -416,18 +431,43 @@ func (s *Sim) natsStep(d Decision) {
 		}
 		// (other parked goroutines are completion callbacks the adapter starts
 		// with a go statement: they are released first)
-		if !strings.Contains(ps[0].site, "listener") {
-			s.release(ps[0])
-			break
+		p := ps[0]
+		if d.P != "" {
+			// lock yields: any of them, by position
+			i, _ := strconv.Atoi(d.P)
+			p = ps[i%len(ps)]
 		}
-		if len(w.queue) > 0 {
-			q := w.queue[0]
-			w.queue = w.queue[1:]
-			if q.msg != nil {
-				q.msg.Handled, q.msg.HandledAt = true, s.now()
+		handled := func(q *natsQueued) {
+			if q != nil && q.msg != nil {
+				w.mu.Lock()
+				q.msg.Handled, q.msg.HandledAt, q.msg.BeforeDone = true, s.now(), len(q.req.Done) == 0
+				w.mu.Unlock()
 			}
 		}
-		s.release(ps[0])
+		switch {
+		case strings.Contains(p.site, "listener:loop") || (strings.Contains(p.site, "listener") && !strings.Contains(p.site, ":lock")):
+			var q *natsQueued
+			if len(w.queue) > 0 {
+				q = w.queue[0]
+				w.queue = w.queue[1:]
+			}
+			if s.Cfg.P.Faults["lockyield"] {
+				w.cur = q
+			} else {
+				handled(q)
+			}
+		case strings.Contains(p.site, "listener:lock"):
+			handled(w.cur)
+			w.cur = nil
+		}
+		// goroutines that cannot be told apart (same site, e.g. two deadline
+		// timers due at the same instant) are released together
+		for _, o := range ps {
+			if o != p && o.site == p.site && o.key == p.key && o.ticket == p.ticket {
+				s.release(o)
+			}
+		}
+		s.release(p)
 	case "time":
 		dur, _ := time.ParseDuration(d.P)
 		s.advance(dur)
@@ -510,7 +550,14 @@ func (s *Sim) natsFinish() {
 		s.Stats["oracle.C18.b"]++
 		want, wantAt := "timeout", time.Duration(0)
 		dl := r.SentAt + natsTimeout
+		raced := false
 		for _, m := range r.Msgs {
+			if m.Handled && m.HandledAt >= dl && m.BeforeDone {
+				// the listener looked the request up after the deadline, before the
+				// timeout had: either of them completes it
+				raced = true
+				break
+			}
 			if !m.Handled || m.HandledAt >= dl {
 				continue
 			}
@@ -536,8 +583,15 @@ func (s *Sim) natsFinish() {
 		default:
 			got = "error:" + d.Err
 		}
+		if raced {
+			s.Stats["completion.raced_the_timeout"]++
+			continue
+		}
 		s.Stats["completion."+strings.SplitN(want, ":", 2)[0]]++
-		if got != want {
+		if got == want && got == "timeout" && s.Cfg.P.Faults["lockyield"] && d.At > wantAt {
+			// the timeout was held up before it took the adapter's lock
+			s.Stats["completion.timeout_preempted"]++
+		} else if got != want {
 			s.violateNATS("b", "wrong-completion", "%s: completed with %s at %v, the reference says %s at %v (messages: %s)", name, trunc(got, 80), d.At, trunc(want, 80), wantAt, r.msgList())
 		} else if d.At != wantAt {
 			s.violateNATS("b", "wrong-time", "%s: completed with %s at %v, the reference says at %v (messages: %s)", name, trunc(got, 80), d.At, wantAt, r.msgList())
